@@ -8,6 +8,7 @@ C11.variant  : ranking idioms (counter against a bound not modified in the body,
 C11.iter     : infinite iterators (count/cycle/repeat) are only consumed through
                islice/zip/takewhile/next; no `for x in L` body grows L.
 C11.rec      : recursive calls do not pass the function's own parameters unchanged.
+C11.regex    : no regular expression literal handed to `re` can backtrack exponentially (parse-tree check).
 """
 
 import ast
@@ -579,6 +580,50 @@ def analyse_while(w, local_names=None):
     }
 
 
+# loops whose termination is delegated to a callee, read and argued by hand: (function, "while <test>") -> argument
+TERMINATION_ARGUMENTS = {}
+
+
+def delegated(index, f, w, info):
+    """
+    Names of repository functions the loop's termination is delegated to: every progress-capable
+    exit-relevant name is (re)bound in the body only from the result of a call to a repository function
+    (iterating a function until it returns a sentinel), and no counter / container bound takes part.
+    """
+    prog = set(info["progress_capable"])
+    if not prog:
+        return None
+    callees = set()
+    seen = set()
+    for n in walk_body(w):
+        if isinstance(n, (ast.Assign, ast.AnnAssign, ast.AugAssign, ast.NamedExpr)):
+            tg = n.targets if isinstance(n, ast.Assign) else [n.target]
+            stored = set()
+            for t in tg:
+                stored.update(stored_names(t))
+            hit = stored & prog
+            if not hit:
+                continue
+            seen.update(hit)
+            v = n.value
+            if isinstance(n, ast.AugAssign) or not isinstance(v, ast.Call):
+                return None
+            q = index.callee(f.mod, v, f)
+            if q not in index.funcs:
+                return None
+            callees.add(index.funcs[q].node.name)
+        elif isinstance(n, (ast.For, ast.AsyncFor, ast.comprehension)):
+            if set(stored_names(n.target)) & prog:
+                return None
+        elif isinstance(n, ast.Call) and isinstance(n.func, ast.Attribute) and n.func.attr in MUTATORS and isinstance(n.func.value, ast.Name) and n.func.value.id in prog:
+            return None
+        elif isinstance(n, ast.Delete):
+            return None
+    if seen != prog:
+        return None
+    return callees
+
+
 def variant(w):
     """recognised ranking idiom or None"""
     body_mut = set()
@@ -684,6 +729,7 @@ def diverging(w, ancestors_tests):
     """
     tests = w.test.values if isinstance(w.test, ast.BoolOp) and isinstance(w.test.op, ast.And) else [w.test]
     grows, shrinks, incs, decs, assigned = set(), set(), set(), set(), set()
+    strgrow = {}
     for n in walk_body(w):
         if isinstance(n, ast.Call) and isinstance(n.func, ast.Attribute) and isinstance(n.func.value, ast.Name):
             if n.func.attr in ("append", "insert", "extend", "appendleft", "add"):
@@ -696,6 +742,9 @@ def diverging(w, ancestors_tests):
                 incs.add(n.target.id)
             elif isinstance(n.op, ast.Sub) and pos:
                 decs.add(n.target.id)
+            elif isinstance(n.op, ast.Add) and isinstance(n.value, ast.Constant) and isinstance(n.value.value, str):
+                # s += "]" : a string that only ever gets a constant suffix
+                strgrow.setdefault(n.target.id, []).append(n.value.value)
             else:
                 assigned.add(n.target.id)
         elif isinstance(n, (ast.Assign, ast.AnnAssign)):
@@ -708,11 +757,50 @@ def diverging(w, ancestors_tests):
                     root = root.value
                 if isinstance(root, ast.Name):
                     shrinks.add(root.id)
+    changed = grows | shrinks | incs | decs | assigned | set(strgrow)
+
+    def count_of(e):
+        """(string name, constant needle) of `name.count("x")`"""
+        if (
+            isinstance(e, ast.Call)
+            and call_name(e) == "count"
+            and isinstance(e.func, ast.Attribute)
+            and isinstance(e.func.value, ast.Name)
+            and len(e.args) == 1
+            and isinstance(e.args[0], ast.Constant)
+            and isinstance(e.args[0].value, str)
+        ):
+            return e.func.value.id, e.args[0].value
+        return None
+
+    def constant_over_iteration(e):
+        if not (names_in(e) & changed):
+            return True
+        c = count_of(e)
+        if c is not None and c[0] in strgrow and c[0] not in (assigned | incs | decs | grows | shrinks):
+            return not any(c[1] in suffix for suffix in strgrow[c[0]])
+        return False
+
     for t in tests:
         if not (isinstance(t, ast.Compare) and len(t.ops) == 1 and isinstance(t.ops[0], ast.NotEq)):
             continue
         for side, other in ((t.left, t.comparators[0]), (t.comparators[0], t.left)):
             var, kind = None, None
+            c = count_of(side)
+            if c is not None and c[0] in strgrow and c[0] not in (assigned | incs | decs | grows | shrinks) and any(c[1] in suffix for suffix in strgrow[c[0]]):
+                if constant_over_iteration(other):
+                    a_txt, b_txt = norm_text(side), norm_text(other)
+                    guarded = False
+                    for g in ancestors_tests:
+                        for cmp_ in ast.walk(g):
+                            if isinstance(cmp_, ast.Compare) and len(cmp_.ops) == 1 and isinstance(cmp_.ops[0], (ast.Lt, ast.LtE, ast.Gt, ast.GtE)):
+                                if {norm_text(cmp_.left), norm_text(cmp_.comparators[0])} == {a_txt, b_txt}:
+                                    guarded = True
+                    if not guarded:
+                        return "`{}` is the exit test but {} only increases (each pass appends {!r} to {}) while {} stays put: if it starts above {} the loop never ends".format(
+                            norm_text(t), a_txt, strgrow[c[0]][0], c[0], b_txt, b_txt
+                        )
+                continue
             if isinstance(side, ast.Call) and call_name(side) == "len" and side.args and isinstance(side.args[0], ast.Name):
                 var = side.args[0].id
                 if var in grows and var not in shrinks and var not in assigned:
@@ -865,6 +953,25 @@ def run(ctx):
                 ctx.ob("C11.variant", f, head, div is None, div or "", line=w.lineno)
             var = variant(w) if ok else None
             if ok and var is None:
+                dele = delegated(index, f, w, info)
+                if dele:
+                    key = (f.qual, " ".join(head.split()))
+                    reason = TERMINATION_ARGUMENTS.get(key)
+                    ctx.ob(
+                        "C11.variant",
+                        f,
+                        head,
+                        reason is not None,
+                        ""
+                        if reason is not None
+                        else "the loop ends only when {}() hands back a value that fails the test: every exit-relevant name ({}) is "
+                        "re-computed by that call from the previous pass's result, nothing in the loop bounds the number of passes, "
+                        "and the callee promises no strict progress (an input it returns unchanged, or grows, loops forever)".format(
+                            "/".join(sorted(dele)), ", ".join(info["progress_capable"])
+                        ),
+                        line=w.lineno,
+                    )
+            if ok and var is None:
                 unproved.append("{}:{} {} (progress on every path, but no ranking idiom recognised)".format(f.qual, w.lineno, head))
             info["loop"] = "{}:{}".format(f.qual, w.lineno)
             info["variant"] = var
@@ -886,7 +993,65 @@ def run(ctx):
                 ctx.ob("C11.progress", m, "while " + short(s.test), not info["stuck_paths"], "module-level loop without progress", line=s.lineno)
     ctx.section(_iter_rule, ctx)
     ctx.section(_rec_rule, ctx)
+    ctx.section(_regex_rule, ctx)
     ctx.samples = samples[:8]
+
+
+RE_FUNCS = frozenset("compile match search fullmatch sub subn split findall finditer".split())
+
+
+def _regex_rule(ctx):
+    """
+    C11.regex: a regular expression applied to input text must not be able to backtrack exponentially
+    (a 30-character word would take minutes). Every pattern handed to the `re` module anywhere in the
+    non-test package is folded to a constant and its parse tree (re._parser, nothing is matched) is checked
+    for nested unbounded repeats with optional surroundings. The package uses no regex today: the rule's
+    own positive and negative examples are re-checked on every run so that zero sites is not a vacuous pass.
+    """
+    from ..fold import ModuleEnv, Unknown
+    from ..regexcheck import catastrophic, self_test
+
+    index = ctx.index
+    bad = self_test()
+    ctx.need(not bad, "the regex analyser disagrees with its own examples: {}".format(bad))
+    env = ModuleEnv(index)
+    n = 0
+    for name in index.nontest_modules():
+        m = index.modules[name]
+        for c in ast.walk(m.tree):
+            if not isinstance(c, ast.Call):
+                continue
+            # resolve in the innermost enclosing function, if any
+            f = None
+            p = m.parents.get(c)
+            while p is not None:
+                if isinstance(p, (ast.FunctionDef, ast.AsyncFunctionDef)):
+                    f = next((g for g in index.funcs.values() if g.node is p), None)
+                    break
+                p = m.parents.get(p)
+            callee = index.callee(m, c, f) or ""
+            if not (callee.startswith("re.") and callee[3:] in RE_FUNCS):
+                continue
+            n += 1
+            ctx.need(c.args, "re.{} called without a pattern argument".format(callee[3:]))
+            try:
+                pat = env.in_module(m, c.args[0])
+            except Unknown as x:
+                ctx.need(False, "{}:{} regular expression is not a constant ({}): cannot decide its backtracking behaviour".format(name, c.lineno, x))
+            ctx.need(isinstance(pat, str), "{}:{} pattern folds to a non-string".format(name, c.lineno))
+            why = catastrophic(pat)
+            ctx.need(why is not None, "{}:{} pattern {!r} does not parse".format(name, c.lineno, pat))
+            ctx.ob(
+                "C11.regex",
+                f if f is not None else m,
+                "re.{}({!r})".format(callee[3:], pat),
+                not why,
+                "" if not why else "the pattern can backtrack exponentially ({}): a long run of matching characters followed by a "
+                "mismatch makes the match take 2^n steps — conversion of such a docstring does not finish in reasonable time".format(why[0]),
+                line=c.lineno,
+            )
+    ctx.count("regex_sites", n)
+    ctx.count("regex_analyser_examples", 8)
 
 
 def _iter_rule(ctx):
